@@ -36,6 +36,7 @@ m("M12_tr_skip_prev_close","C06",I+"true_range.rs","    prev_close: Option<f64>,
 m("M13_dataitem_compact_volume","C06","src/data_item.rs","    close: f64,\n    volume: f64,\n}","    close: f64,\n    #[cfg_attr(feature = \"serde\", serde(serialize_with = \"compact\"))]\n    volume: f64,\n}\n\n// volumes do not need 64 bits of precision on the wire\n#[cfg(feature = \"serde\")]\nfn compact<S: serde::Serializer>(v: &f64, s: S) -> std::result::Result<S::Ok, S::Error> {\n    s.serialize_f64(*v as f32 as f64)\n}")
 m("M13b_max_skip_max_index","C06",I+"maximum.rs","    period: usize,\n    max_index: usize,","    period: usize,\n    #[cfg_attr(feature = \"serde\", serde(skip))]\n    max_index: usize,")
 m("M13c_wma_skip_sum_flat","C06",I+"weighted_moving_average.rs","    sum: f64,\n    sum_flat: f64,","    sum: f64,\n    #[cfg_attr(feature = \"serde\", serde(skip))]\n    sum_flat: f64,")
+m("M13d_sma_pretty_json_sum","C06",I+"simple_moving_average.rs","    count: usize,\n    sum: f64,\n    deque: Box<[f64]>,\n}","    count: usize,\n    #[cfg_attr(feature = \"serde\", serde(serialize_with = \"pretty_sum\"))]\n    sum: f64,\n    deque: Box<[f64]>,\n}\n\n// human-readable formats get a tidy number\n#[cfg(feature = \"serde\")]\nfn pretty_sum<S: serde::Serializer>(v: &f64, s: S) -> std::result::Result<S::Ok, S::Error> {\n    if s.is_human_readable() {\n        s.serialize_f64((v * 1e6).round() / 1e6)\n    } else {\n        s.serialize_f64(*v)\n    }\n}")
 # ---- C12
 m("M14_er_wrap_off_by_one","C12",I+"efficiency_ratio.rs","        self.index = if self.index + 1 < self.period {","        self.index = if self.index < self.period {")
 m("M15_min_partial_cmp_unwrap","C12",I+"minimum.rs","            if val < min {","            if val.partial_cmp(&min).unwrap() == std::cmp::Ordering::Less {")
